@@ -82,8 +82,8 @@ def main():
         geo = dict(kind=kind, h=h, w=w, ci=ci, co=co, kh=kh, kw=kw, sh=sh, sw=sw, d=d, pad=pad, groups=groups)
         ext = (f"[{'out_valid' if pad == 'valid' else 'out_same'} {h} " + (f"{kh} {sh} {d}" if pad == "valid" else f"{sh}") + "; " +
                f"{'out_valid' if pad == 'valid' else 'out_same'} {w} " + (f"{kw} {sw} {d}" if pad == "valid" else f"{sw}") + "; " +
-               f"oc_conv2d {oshape[1]} {oshape[2]} {co} {kh} {kw} {ci}]")
-        items.append((geo, got, true, [oshape[1], oshape[2], got], "C19-grouped-conv-counts-all-input-channels" if groups > 1 else None))
+               f"oc_conv2d {oshape[1]} {oshape[2]} {co} {kh} {kw} {ci} {groups}]")
+        items.append((geo, got, true, [oshape[1], oshape[2], got], None))
         texts.append(ext)
       elif kind == "conv1d":
         lyr = qkeras.QConv1D(co, kh, strides=sh, padding=pad, dilation_rate=d, kernel_quantizer=qb, bias_quantizer=qb)
@@ -107,10 +107,10 @@ def main():
         _, ho, wo = brute_conv2d(h, w, ci, ci, kh, kw, sh, sw, 1, 1, pad, 1)
         true = ho * wo * ci * dm * kh * kw
         geo = dict(kind=kind, h=h, w=w, ci=ci, dm=dm, kh=kh, kw=kw, sh=sh, sw=sw, pad=pad)
-        items.append((geo, got, true, [oshape[1], oshape[2], got], "C19-depthwise-ignores-depth-multiplier" if dm > 1 else None))
+        items.append((geo, got, true, [oshape[1], oshape[2], got], None))
         texts.append(f"[{'out_valid' if pad == 'valid' else 'out_same'} {h} " + (f"{kh} {sh} 1" if pad == "valid" else f"{sh}") + "; " +
                      f"{'out_valid' if pad == 'valid' else 'out_same'} {w} " + (f"{kw} {sw} 1" if pad == "valid" else f"{sw}") + "; " +
-                     f"oc_depthwise {kh} {kw} {oshape[1]} {oshape[2]} {ci}]")
+                     f"oc_depthwise {kh} {kw} {oshape[1]} {oshape[2]} {ci * dm}]")
       elif kind == "dense":
         lyr = qkeras.QDense(co, kernel_quantizer=qb, bias_quantizer=qb)
         ishape = (None, ci * 7)
@@ -126,16 +126,16 @@ def main():
         got = qtools_util.get_operation_count(lyr, ishape)
         oshape = lyr.compute_output_shape(ishape)
         true = oshape[1] * oshape[2] * ci * ph * pw
-        fid = "C19-average-pooling-counts-one-output-position" if oshape[1] * oshape[2] > 1 else None
+        fid = None
         items.append((dict(kind=kind, h=h, w=w, c=ci, ph=ph, pw=pw), got, true, [oshape[1], oshape[2], got], fid))
-        texts.append(f"[out_valid {h} {ph} {ph} 1; out_valid {w} {pw} {pw} 1; oc_pool {ci} {ph} {pw}]")
+        texts.append(f"[out_valid {h} {ph} {ph} 1; out_valid {w} {pw} {pw} 1; oc_pool {oshape[1] * oshape[2]} {ci} {ph} {pw}]")
       elif kind == "gap":
         lyr = L.GlobalAveragePooling2D()
         ishape = (None, h, w, ci)
         got = qtools_util.get_operation_count(lyr, ishape)
         true = ci * h * w
         items.append((dict(kind=kind, h=h, w=w, c=ci), got, true, [got], None))
-        texts.append(f"[oc_pool {ci} {h} {w}]")
+        texts.append(f"[oc_pool 1 {ci} {h} {w}]")
       elif kind == "add":
         lyr = L.Add()
         ishape = [(None, h, w, ci), (None, h, w, ci)]
